@@ -7,13 +7,13 @@ props = [json.loads(l) for l in open(os.path.join(VERIF, "properties.jsonl"))]
 # id -> (technique, level text, level note, design ref)
 CHECKS = {
  "C01": ("stateless exhaustive enumeration of (encryption path, decryption path) pairs on the real code",
-         "Bounded exhaustive exploration: every pair of public encryption/decryption paths per mode family, over every configuration of the tier (harness-owned ciphers of block size 1..255 and parallel width 1..16, plus real ciphers in the thorough tier), IVs, data patterns and every length up to the bound; oracle dec(enc(m)) = m and length preservation. Settles the round-trip quantifier within the stated configuration/length bounds.",
+         "Bounded exhaustive exploration: every pair of public encryption/decryption paths per mode family, over every configuration of the tier (harness-owned ciphers of block size 1..255 and parallel width 1..16, plus real ciphers in the thorough tier), IVs, data patterns and every length up to the bound; oracle dec(enc(m)) = m and length preservation. Paths include every call form (in place / b2b / inout, single-block entry points, six shapes of caller-supplied closures through *_with_backend / process_with_backend, write_keystream_blocks), form cycles, and one object used in two ways (block-level calls, then the consuming padded call). Settles the round-trip quantifier within the stated configuration/length bounds.",
          "Trusted: the harness cipher family (self-tested bijection), the thin adapters, data-oblivious control flow of the subject (three data patterns per shape).", "3/C01"),
  "C02": ("stateless exhaustive enumeration of feeding schedules against a reference recurrence",
-         "Every (mode, direction, configuration, key, IV, data, n, schedule, call form) within the bound is executed on the real types; output and exported chaining value are compared with an independent reference recurrence after every call; decryptors are fed ciphertext nobody produced.",
+         "Every (mode, direction, configuration, key, IV, data, n, schedule, call form) within the bound is executed on the real types; output and exported chaining value are compared with an independent reference recurrence after every call (schedules: single-block calls, one call, every two-way split, empty calls, caller-supplied closures of six shapes, calls of 33/65/257 blocks); decryptors are fed ciphertext nobody produced.",
          "Trusted: reference models (validated against the published vectors at start-up), harness cipher, adapters.", "3/C02"),
  "C03": ("stateless exhaustive enumeration of front-ends, byte lengths and chunkings against reference recurrences, with a backend-call monitor",
-         "Every front-end of CFB, CFB-8 and OFB x every byte length up to the bound x whole / unit-wise / two-way-split chunkings x call form is executed and compared with the reference recurrence; the harness cipher's call counter shows that the decryption direction is never used while data is processed.",
+         "Every front-end of CFB, CFB-8 and OFB x every byte length up to the bound x whole / unit-wise / two-way-split / closure / form-cycle chunkings x call form is executed and compared with the reference recurrence, as is 'block-level calls, then the consuming one-shot call on the same object'; the harness cipher's call counter shows that the decryption direction is never used while data is processed.",
          "Trusted: reference models (validated against published vectors), harness cipher call counter, adapters.", "3/C03"),
  "C05": ("stateless exhaustive enumeration of lengths and call forms against the SP 800-38A-Addendum reference",
          "All six CTS types x configurations x IVs x data x every length class up to (2*PAR+3) blocks x call form: encryption equals the Addendum reference, decryption inverts it, decryption of arbitrary bytes equals the reference decryption.",
@@ -25,25 +25,25 @@ CHECKS = {
          "Every fallible entry point x every bad-length class returns Err and leaves buffers and object state untouched; every entry point x every length 0..Lmax, extreme counter positions and every exported buffered-CFB position run without unwinding, with overflow checks and debug assertions on.",
          "Trusted: adapters; domain restrictions listed in DESIGN.md section 5.3 (negative seek positions, wrappers documented to panic).", "3/C13"),
  "C14": ("stateless exhaustive pairwise comparison of front-ends on the real code",
-         "Every listed pair of front-ends (buffered / block-level / one-shot CFB; OFB as encryptor, decryptor, core, byte stream; CTR and BelT core vs byte level; CTS on whole blocks vs plain CBC / raw E; constructors from key bytes vs keyed cipher) is compared byte for byte over configurations x IVs x data x lengths.",
+         "Every listed pair of front-ends (buffered / block-level / one-shot CFB; OFB as encryptor, decryptor, core, byte stream; CTR and BelT core vs byte level; CTS on whole blocks vs plain CBC / raw E; constructors from key bytes / slices vs keyed cipher, compared well past the first call: parallel path, single block, clone, positions, seeks; a core used directly and then wrapped with from_core) is compared byte for byte over configurations x IVs x data x lengths.",
          "Trusted: harness cipher, adapters.", "3/C14"),
 }
 
 CHECKS.update({
  "C04": ("stateless exhaustive enumeration over carry windows with a backend monitor (counter block fed to E); thorough: complete sweep of all 2^32-1 indices for the 32-bit flavours",
-         "Six flavours x configurations x IVs with the counter field on every carry boundary x block indices in windows around every 256^k and the end x batch sizes generated in one call; the block the harness cipher received must equal layout(IV,i) computed with an independent byte-wise carry chain, and output = input xor E(layout). Thorough sweeps every index of Ctr32BE/LE.",
+         "Six flavours x configurations x IVs with the counter field on every carry boundary x block indices in windows around every 256^k and the end x batch sizes generated in one call x four ways of reaching the index (seek on a fresh core, backward seek, generation, forward seek after a first block); the block the harness cipher received must equal layout(IV,i) computed with an independent byte-wise carry chain, and output = input xor E(layout). Thorough sweeps every index of Ctr32BE/LE.",
          "Trusted: harness cipher call log, reference layout routine (validated on AES-CTR and GOST vectors). 64/128-bit flavours: carry windows only (stated).", "3/C04"),
  "C06": ("stateless exhaustive enumeration with a backend monitor, IVs placed on both sides of the 2^128 wrap",
          "BelT-CTR over every 16-byte configuration (incl. the real BelT cipher) x IVs chosen so that E(IV) sits within W of 2^128 and of 0 x offsets x lengths x call forms; output, the exact sequence of counter blocks fed to E, involution and exported state are compared with the reference.",
          "Trusted: reference (validated against the STB 34.101.31 vector), harness cipher log.", "3/C06"),
  "C07": ("all compositions (stateless) + deviation-bounded schedules + merged BFS with a singleton-state-per-offset invariant, on the real code",
-         "Every block-oriented entry point: all compositions of n <= 7/9 blocks x call kind, every <= 2/3 split deviations on 4*PAR+3 blocks, merged BFS over call sizes to 24/64 blocks, and identical inputs under every parallel width (incl. CTS one-shots); bytes and chaining state after every call equal the one-block-at-a-time run / reference.",
+         "Every block-oriented entry point: all compositions of n <= 7/9 blocks x call kind, every <= 2/3 split deviations on 4*PAR+3 blocks, merged BFS over (call size, call form) to 24/64 blocks, every ordered pair (thorough: triple) of (size, form) statelessly, single calls up to 257/1025 blocks, and identical inputs under every parallel width (incl. CTS one-shots); bytes and chaining state after every call equal the one-block-at-a-time run / reference.",
          "Trusted: harness cipher whose permutation is width-independent and whose batch entry points read all inputs before writing; canonical key = (offset, exported state, two-block probe).", "3/C07"),
  "C08": ("all compositions with empty pieces (stateless) + deviation-bounded cuts + merged BFS over piece lengths, on the real code",
          "Byte-level stream ciphers and buffered CFB: all compositions of short strings (with empty pieces), every <= 2/3 cut deviations on 3*bs+2 bytes, merged BFS over piece lengths with the singleton-state invariant; one-shot CFB/CFB-8 prefix preservation for every pair of lengths and two continuations.",
          "Trusted: reference keystream / recurrences; canonical key = (offset, 1.5-block probe).", "3/C08"),
  "C09": ("merged BFS with a reinstantiate (export/import) action and the singleton-state invariant",
-         "Every IvState type and both buffered CFB types: BFS over {feed, export->fresh instance} with <= 3 cuts; every history continues exactly like the uninterrupted run, the exported value equals the reference public chaining value, encryptor and decryptor export equal values; every byte cut point of buffered CFB.",
+         "Every IvState type and both buffered CFB types: BFS over {feed through every call form, export->fresh instance, clone, set_block_pos} with <= 3 cuts, states behind a cut expanded in their own right (history tag outside the confluence value); every history continues exactly like the uninterrupted run, the exported value equals the reference public chaining value, encryptor and decryptor export equal values; every byte cut point of buffered CFB.",
          "Trusted: reference chaining values; canonical key = (offset, exported value, probe).", "3/C09"),
  "C10": ("merged BFS of the seek/position machine from initial and post-seek states against a random-access reference",
          "Seven seekable ciphers x configurations x IVs: BFS to depth 3 (quick) / 4 (thorough) over seeks of five integer types to a boundary alphabet of positions and data calls of boundary lengths; bytes, try_current_pos of all five types, get_block_pos, remaining_blocks and the counter blocks fed to E are checked on every transition.",
@@ -55,10 +55,10 @@ CHECKS.update({
          "Every mode x configuration x position x difference (all single-bit flips for small units): decryption of the perturbed ciphertext equals the reference exactly and the difference to the unperturbed plaintext has the support the definition prescribes; causality both directions; keystream independence of data; backend call shapes equal across data.",
          "Trusted: non-zero claims only where bijectivity guarantees them (coincidences counted).", "3/C15"),
  "C16": ("stateless exhaustive enumeration of interleavings of histories on an original, its clone and a third instance",
-         "Every object kind: all h1 (<= 2/3 ops), clone, all h2/h3 (<= 2 ops) and every interleaving, a differently keyed third instance stepping in between; each handle equals a fresh replay; determinism; dropping the clone leaves the original intact; source scan for hidden shared state recorded.",
+         "Every object kind: all h1 (<= 2/3 ops), clone, all h2/h3 (<= 2 ops) and every interleaving, a differently keyed third instance stepping in between; each handle equals a fresh replay; determinism; dropping the clone leaves the original intact; clone_from into fresh and used instances; an extended operation alphabet (all call forms) at depth 1; a sequential part where a NEW instance created after another instance's history (other key / other IV / same) must match the reference model; source scan for hidden shared state recorded.",
          "Trusted: call-granular exploration (no hidden intra-call shared state; scan result in evidence).", "3/C16"),
  "C17": ("explicit-state exploration of short histories with Debug text as an invariant and drop as a terminal transition (zeroize build)",
-         "Every object kind x 2 keys x 3 IVs x histories to depth 2/3: one Debug string per type; with the repo crates built with zeroize, drop_in_place in zeroed heap storage and a scan for 8-byte windows of IV / exported state / feedback / counters / buffered keystream. The wrapper's buffer_data Debug field (cipher crate) is a known finding.",
+         "Every object kind x 2 keys x 3 IVs x histories to depth 3/4 over the extended operation alphabet (every call form, near-end positioning): one Debug string per type ({:?} and {:#?}); with the repo crates built with zeroize, drop_in_place in zeroed heap storage and a scan for 8-byte windows of IV / exported state / feedback / counters / buffered keystream (a window counts only if three scans out of three find it). The wrapper's buffer_data Debug field (cipher crate) is a known finding.",
          "Trusted: harness cipher laid out without padding; raw read of the dropped object's storage.", "3/C17"),
 })
 PENDING_REASON = "check not built yet (work in progress; see DESIGN.md section 3)"
